@@ -29,7 +29,13 @@ func (e *Enc) call(x *ssa.Call, st *State) {
 	if fc == nil {
 		// functions of side-effect free standard packages get the default assumed contract
 		// "modifies nothing, returns some value of the result type"
-		if callee.Pkg != nil && purePackages[callee.Pkg.Pkg.Path()] {
+		pkgPath := ""
+		if callee.Pkg != nil {
+			pkgPath = callee.Pkg.Pkg.Path()
+		} else if o := callee.Origin(); o != nil && o.Pkg != nil {
+			pkgPath = o.Pkg.Pkg.Path() // an instance of a generic function
+		}
+		if purePackages[pkgPath] {
 			fc = &FuncC{Name: name, Kind: "extern", HasMod: true, Loops: map[int]*LoopC{}}
 			e.defaultExterns[name] = true
 		} else {
